@@ -42,7 +42,7 @@ RULE = (
     "(history replayed from scratch on fresh objects incl. a fresh scheduler); non-trivial = the last event delivered >=1 notification "
     "to an observer or raised to the caller; distinct = (configuration, history)"
 )
-BUDGET = {"quick": 150.0, "thorough": 1800.0}
+BUDGET = {"quick": 300.0, "thorough": 1800.0}
 
 SCRIPTS = [
     [P, P, P],
